@@ -14,7 +14,7 @@ WRAPS = ["coap_ticks", "coap_socket_send", "coap_socket_recv", "coap_check_notif
 QUERIES = ["-", "61", "62", "61+62", "62+61", "6161", "610f0062", "610f00+62"]
 TOKENS = ["a1", "a2", "b1b2", "c1c2c3c4", "d1d2d3d4d5d6d7d8", "-", "a1a1"]
 EXTRAS = ["", "", "", "4=e1", "4=e2", "17=28", "17=00", "60=10", "60=20", "4=e1,60=11", "12=_",
-          "23=06", "23=02"]
+          "23=06", "23=02", "0=01,12=_", "0=0102,12=_", "0=_", "0=01,12=_,17=28", "0=01"]
 
 
 # ------------------------------------------------------------------ generator
@@ -143,11 +143,19 @@ def request_opts(r, q, x, observe):
     """option list of the request datagram the harness builds, in wire order"""
     opts = [("6", "01" if observe else "_"), ("11", ("r%d" % r).encode().hex())]
     opts += _hexq(q)
+    body = None
     if x:
         for kv in x.split(","):
             n, v = kv.split("=")
-            opts.append((n, v[:24] if v != "_" else "_"))
+            if int(n) == 0:
+                # FETCH: the payload is part of the cache key (coap_cache.c); the model sees it
+                # as a pseudo option -1 at the end of the list
+                body = v[:24] if v != "_" else ""
+            else:
+                opts.append((n, v[:24] if v != "_" else "_"))
     opts = [x[1] for x in sorted(enumerate(opts), key=lambda e: (int(e[1][0]), e[0]))]
+    if body:
+        opts.append(("-1", body))
     return ",".join("%s=%s" % (n, v if v else "_") for n, v in opts)
 
 
@@ -301,7 +309,9 @@ def translate(case_line, trace_line):
             else:
                 if (d["c"], d["mid"]) in by_mid and d["type"] == "C":
                     d["retransmission"] = True
-                elif cur is not None and cur[0][0] in "RC" and d["type"] == "R" and not cur[1]:
+                elif cur is not None and cur[0][0] in "RC" and not cur[1] and \
+                        (d["type"] == "R" or (cls >= 4 and d["res"] is None)):
+                    # RST, or an error response made by the library itself (no application body):
                     # the request was refused as malformed: it never reached handle_request
                     t.groups.remove(cur)
                     cur = None
